@@ -443,6 +443,7 @@ class CSSStyleSheet(cssutils.stylesheets.StyleSheet):
         If `encoding` is None removes charsetrule if present resulting in
         default encoding of utf-8.
         """
+        self._checkReadonly()
         try:
             rule = self._cssRules[0]
         except IndexError:
@@ -899,7 +900,7 @@ class CSSStyleSheet(cssutils.stylesheets.StyleSheet):
 
         if rule.IMPORT_RULE == rule.type and not rule.hrefFound:
             # try loading the imported sheet which has new relative href now
-            rule.href = rule.href
+            rule._loadHref(rule.href)
 
         return index
 
